@@ -1106,6 +1106,87 @@ def main(ctx):
     ctx.lattice("sampler-saturated-tails", tunits2, one_tail, engine="environment",
                 bounds=dict(tables=sorted(TAILS), deviates=["1", "1 - k*2^-53 for k in 1,2,3,4,8,16,20,21,32,64,1024", 0.999, 0.9, 0.5, 0.1, 1e-3, "2^-53", 0]))
 
+    # ---------------------------------------------- optional third-party imports absent
+    # The process environment is part of "all configurations": worlds in which an optional third-party module is not
+    # importable (its sys.modules entry is None, set in a forked child so the worker itself stays pristine).  The
+    # statement promises values; a world without the module may refuse LOUDLY (ImportError, no sample is returned)
+    # or must pass exactly the same oracle as the ordinary world (independent exact-rational reference) - a silent
+    # change of algorithm is a violation.  The empty world is the control: no refusal is acceptable there.
+    ABSENT_WORLDS = [(), ("scipy",), ("scipy.integrate",), ("scipy.interpolate",), ("scipy.linalg",),
+                     ("scipy.integrate", "scipy.interpolate", "scipy.special", "scipy.linalg", "scipy.stats")]
+    ABSENT_OBSERVERS = {"sampler": one_sampler, "cholesky": one_chol}
+
+    class _ProxyRec(object):
+        """collects what an ordinary part's ``one`` reports, inside the child"""
+
+        def __init__(self, tmp):
+            self.tmp = tmp
+            self.fails, self.oks, self.counts = [], [], []
+
+        def ok(self, case=None, outcome="ok", nontrivial=True, calls=1):
+            self.oks.append((outcome, bool(nontrivial), int(calls)))
+
+        def fail(self, case, message):
+            self.fails.append(str(message))
+
+        def count(self, key, n=1):
+            self.counts.append((key, n))
+
+    def one_absent(case, rec):
+        import re
+        import sys
+        from mc import util as mcutil
+        absent, observer, inner = case
+        fn = ABSENT_OBSERVERS[observer]
+        try:
+            # loaded in the worker first, so that the child does not pay for the import (esutil loads it on first use anyway)
+            import scipy.integrate  # noqa: F401
+        except ImportError:
+            pass
+
+        def run():
+            for name in absent:
+                sys.modules[name] = None
+            proxy = _ProxyRec(getattr(rec, "tmp", None))
+            try:
+                fn(inner, proxy)
+            except ImportError as e:
+                proxy.fails.append("raised %s: %s" % (type(e).__name__, e))
+            return proxy.fails, proxy.oks, proxy.counts
+
+        st, got = mcutil.in_child(run, timeout=120)
+        if st != "ok":
+            return rec.fail(case, "child process with %r unimportable: %s" % (absent, got))
+        fails, oks, counts = got
+        world = "+".join(absent) or "nothing"
+        if fails:
+            refused = [m for m in fails if re.search(r"raised (ImportError|ModuleNotFoundError)\b", m)]
+            if refused and len(refused) == len(fails) and absent:
+                return rec.ok(case, outcome="absent:%s/%s/refused-loudly" % (world, observer), nontrivial=True, calls=1)
+            return rec.fail(case, "with %s unimportable (sys.modules entry None): %s"
+                            % (" and ".join(absent) or "no module", fails[0]))
+        if not oks:
+            rec.count("absent_world_inner_case_off_lattice")
+            return
+        rec.ok(case, outcome="absent:%s/%s/same-as-reference" % (world, observer),
+               nontrivial=any(o[1] for o in oks), calls=sum(o[2] for o in oks))
+
+    absent_inner = []
+    for (mode, xs, spec, cumulative) in units_s:
+        gname = next((k for k, v in grids.items() if v == xs), None)
+        if (gname in ("uneven5", "seed") and mode in ("tab", "func-x") and (spec in ("ramp", "c-quad") or spec == tab_values("ramp", xs))) \
+                or (gname == "int5" and mode == "tab-int") \
+                or (mode == "func-xrange" and xs == (-4.5, 4.5, 7) and spec in ("peak", "c-exp")):
+            absent_inner.append(("sampler", (mode, xs, spec, cumulative, ("all",))))
+    for (mname, cov) in mats[1:2] + [seed_matrix]:
+        for entry in ("class",):
+            absent_inner.append(("cholesky", (mname, cov, entry, 2, "ramp")))
+    absent_units = [(w, ob, inner) for w in ABSENT_WORLDS for (ob, inner) in absent_inner]
+    ctx.lattice("absent-optional-imports", absent_units, one_absent, engine="environment",
+                bounds=dict(unimportable=[list(w) for w in ABSENT_WORLDS], observers=sorted(ABSENT_OBSERVERS),
+                            inner_cases=len(absent_inner),
+                            allowed=["ImportError/ModuleNotFoundError raised", "the ordinary oracle of the observer holds"]))
+
     ctx.lattice("cholesky", units_ch, one_chol, expand=expand_chol, engine="environment",
                 bounds=dict(matrices=[m[0] for m in mats], n=ns_ch + [None], deviates=["e_i for every i", "ones", "ramp"],
                             entries=["cholesky_sample(means=None)", "cholesky_sample(means=)", "CholeskySampler.sample"]))
